@@ -65,10 +65,10 @@ def parseId (w : String) : Option (Nat × Bool) :=
 def parseOp (o : Ops) (w : String) : Option Ops :=
   match w.splitOn "," with
   | ["t", a, b, c] => match a.toNat?, parseId b, c.toNat? with
-    | some a, some (b, cn), some c => some { o with tr := o.tr ++ [⟨a, b, c, cn⟩] }
+    | some a, some (b, cn), some c => some { o with tr := o.tr ++ [⟨a, b, c, cn, false⟩] }
     | _, _, _ => none
   | ["s", a, b, c] => match a.toNat?, parseId b, c.toNat? with
-    | some a, some (b, cn), some c => some { o with sg := o.sg ++ [⟨a, b, c, cn⟩] }
+    | some a, some (b, cn), some c => some { o with sg := o.sg ++ [⟨a, b, c, cn, false⟩] }
     | _, _, _ => none
   | ["w", k, v] => match k.toNat?, v.toNat? with
     | some k, some v => some { o with ws := o.ws ++ [.put k v] }
